@@ -12,13 +12,17 @@ SIZES = [16 * K, 32 * K, 48 * K, 64 * K, 128 * K]
 BAD_SIZES = [1000, 16385, 0, -16384, 3 * 16384 + 1]
 
 
-def make_tree(root, rng):
+def make_tree(root, rng, sizes=None):
     top = os.path.join(root, 'Tree')
     os.makedirs(os.path.join(top, 'sub'))
     files = {}
-    for i in range(rng.randint(3, 6)):
+    # small trees: few pieces, so that different piece lengths often give the same number of pieces
+    small = rng.random() < 0.3
+    for i in range(rng.randint(3, 6) if sizes is None else len(sizes)):
         rel = ('sub/' if i % 3 == 2 else '') + 'f%d.%s' % (i, rng.choice(['bin', 'txt', 'jpg']))
-        size = rng.choice([10 * K, 30 * K, 70 * K, 100 * K, 150 * K, 300 * K, 17])
+        size = rng.choice([10 * K, 20 * K, 30 * K, 17] if small else [10 * K, 30 * K, 70 * K, 100 * K, 150 * K, 300 * K, 17])
+        if sizes is not None:
+            size = sizes[i]
         with open(os.path.join(top, rel), 'wb') as f:
             f.write(bytes((i * 31 + j * 7) % 251 for j in range(size)))
         files[rel] = size
@@ -211,7 +215,7 @@ def run(ck, model_ok):
         for hi in range(n):
             d = os.path.join(root, 'h')
             os.makedirs(d)
-            top, files = make_tree(d, ck.rng)
+            top, files = make_tree(d, ck.rng, sizes=[30 * K, 20 * K, 17] if hi == 3 else None)
             ops = gen_history(ck.rng, files)
             if hi == 0:
                 ops = [('path',), ('piece_size', 48 * K), ('generate',), ('piece_size', 64 * K), ('generate',), ('min', 128 * K)]
@@ -219,6 +223,9 @@ def run(ck, model_ok):
                 ops = [('max', 64 * K * K), ('min', 32 * K * K), ('max', None), ('path',)]
             if hi == 2:
                 ops = [('path',), ('max', 64 * K * K), ('min', 32 * K * K), ('generate',), ('max', None), ('exclude', '*f1*'), ('generate',)]
+            if hi == 3:
+                # 50 KiB: 32 KiB and 48 KiB pieces both give two pieces
+                ops = [('path',), ('piece_size', 32 * K), ('generate',), ('piece_size', 48 * K), ('piece_size', 32 * K), ('generate',), ('min', 48 * K)]
             out = run_impl(top, ops)
             shutil.rmtree(d)
             ck.case(tuple(map(repr, ops)))
